@@ -67,8 +67,8 @@ func New() *RT {
 	return &RT{counts: map[string]int64{}, MaxEvents: 200000}
 }
 
-func (rt *RT) Install()   { vhook.Set(rt.handle) }
-func Uninstall()          { vhook.Set(nil) }
+func (rt *RT) Install()     { vhook.Set(rt.handle) }
+func Uninstall()            { vhook.Set(nil) }
 func (rt *RT) Total() int64 { return rt.total.Load() }
 
 // OnHook registers a callback run (outside the runtime's lock) at every point.
